@@ -145,6 +145,52 @@ theorem accepted_cannot_go_wrong_computable (s : SchemaD) (hchk : schemaChecksB 
   exact accepted_cannot_go_wrong_merged_executed s hchk hfo fx hv11 h7 env d vars hacc ⟨hid, hmeta⟩ hal hnames
     (noIntrospection_of_check _ d hni) w hw
 
+/-- **accepted_mergeSafe** — `MergeSafe` itself from the computable hypotheses: what "all 26 rule visitors silent" gives
+    about same-key selections of the executed document -/
+theorem accepted_mergeSafe (s : SchemaD) (hchk : schemaChecksB (withBuiltins s) = true) (hfo : fieldOwnersB (withBuiltins s) = true)
+    (fx : Validate.Fixes) (hv11 : fx.v11 = true) (h7 : fx.v7 = true) (env : Exec.ArgEnv) (d : Validate.Doc)
+    (hacc : ∀ r ∈ Validate.Rule.all, C06.SilentM (withBuiltins s) fx r d) (hd : docChecksB d = true) :
+    MergeSafe (withBuiltins s) (eDoc (withBuiltins s) env d) := by
+  unfold docChecksB at hd
+  simp only [Bool.and_eq_true, List.all_eq_true, bne_iff_ne, ne_eq] at hd
+  obtain ⟨⟨⟨⟨hid, hmeta⟩, hal⟩, hnames⟩, hni⟩ := hd
+  unfold schemaChecksB at hchk
+  simp only [Bool.and_eq_true] at hchk
+  obtain ⟨⟨⟨⟨⟨hk, hc⟩, hr⟩, ho⟩, hs⟩, _⟩ := hchk
+  have sil : ∀ r, r ∈ Validate.Rule.all → r ≠ .overlappingFieldsCanBeMerged → C06.Silent (withBuiltins s) fx r d :=
+    fun r hr hn => (C06.silentM_of_ne hn).mp (hacc r hr)
+  have h0 : (Validate.overlapMemoRun (withBuiltins s) fx d).1 = 0 := by
+    have := hacc .overlappingFieldsCanBeMerged (by decide)
+    unfold C06.SilentM at this
+    simpa using this
+  exact mergeSafe_of_silent (withBuiltins s) (schemaWf_of_checks _ ho hs) (rootsAreObjects_of_check _ hr) (fieldOwners_of_check _ hfo)
+    fx hv11 h7 env d []
+    (sil .fieldsOnCorrectType (by decide) (by decide)) (sil .scalarLeafs (by decide) (by decide))
+    (sil .knownFragmentNames (by decide) (by decide)) (sil .fragmentsOnCompositeTypes (by decide) (by decide))
+    (sil .uniqueFragmentNames (by decide) (by decide)) (sil .noFragmentCycles (by decide) (by decide))
+    (sil .uniqueArgumentNames (by decide) (by decide)) h0 ⟨hid, hmeta⟩ hnames (aliasesNonEmpty_of_check d hal)
+    (noIntrospection_of_check _ d hni)
+
+/-- **accepted_same_key_unambiguous** — "one unambiguous value per response key" from validation: in the selection set
+    of every operation of an accepted document (fragments opened), two selections with the same response key
+      * whose parent types can meet in one runtime object denote the SAME CALL (field name, coerced arguments), and
+      * in any case declare types that admit exactly the same response values (`shapeOk`). -/
+theorem accepted_same_key_unambiguous (s : SchemaD) (hchk : schemaChecksB (withBuiltins s) = true)
+    (hfo : fieldOwnersB (withBuiltins s) = true)
+    (fx : Validate.Fixes) (hv11 : fx.v11 = true) (h7 : fx.v7 = true) (env : Exec.ArgEnv) (d : Validate.Doc)
+    (hacc : ∀ r ∈ Validate.Rule.all, C06.SilentM (withBuiltins s) fx r d) (hd : docChecksB d = true) :
+    ∀ o ∈ (eDoc (withBuiltins s) env d).ops, ∀ root, rootType (withBuiltins s) o.kind = some root →
+      ∀ x y, InScope (eDoc (withBuiltins s) env d) (tag root o.sels) x → InScope (eDoc (withBuiltins s) env d) (tag root o.sels) y →
+        x.2.key = y.2.key →
+        (Overlap (withBuiltins s) x.1 y.1 → x.2.name = y.2.name ∧ x.2.args = y.2.args) ∧
+        (∀ t u, fieldTy (withBuiltins s) x.1 x.2 = some t → fieldTy (withBuiltins s) y.1 y.2 = some u →
+          ∀ dta, shapeOk (withBuiltins s) t dta = shapeOk (withBuiltins s) u dta) := by
+  intro o ho root hroot x y hx hy hk
+  have hms := accepted_mergeSafe s hchk hfo fx hv11 h7 env d hacc hd o ho root hroot
+  refine ⟨fun hov => ?_, fun t u ht hu => same_key_one_shape _ _ _ hms x y hx hy hk t u ht hu⟩
+  cases hms with
+  | intro h1 _ _ => exact h1 x y hx hy hk hov
+
 /-! non-vacuity: the static checks on the example document of `Props/C05_overlap.lean` -/
 example : docChecksB (mgDoc .null) = true := by decide
 example : aliasesB (mgDoc .null) = true := by decide
